@@ -5,6 +5,25 @@ import json, pathlib
 ALL = [f'C{i:02d}' for i in range(1, 20)]
 
 CHECKS = {
+ 'C13': dict(
+   technique='Coq proof over Q (ceiling arithmetic, nra) + differential on num_subdivisions and on the stored blocks of every curved primitive',
+   text='Props/C13.v: for every rational length and step, n = ceil(len/dl) >= 2 uniform samples are more than one and at most '
+        'two steps apart; the 3-point fallback is used exactly when len <= dl; the time between samples exceeds 1/cmd_rate_max; '
+        'linspace has a constant step. Tie to /repo: num_subdivisions is compared exactly with the rational model on random and '
+        'boundary-exact (dyadic) inputs incl. rejected speeds; for circ / arc_bend / sin_* / spline blocks the number of stored '
+        'points and their spacing (chord length on arcs, delta-x on sinusoidal/spline) are checked in Q against the model.',
+   note='Trusted: Coq kernel; harness/c13.py; float division near an integer quotient (2^-40) accepted either way and counted; '
+        'float32 storage tolerance; S-bend length taken from femto.',
+   design='5/C13'),
+ 'C15': dict(
+   technique='Coq proof (induction over rows and runs; strokes of the modelled trajectory = spec) + exhaustive small images and random large ones, stroke-level monitor',
+   text='Props/C15.v: for every boolean matrix, size and scale the open-shutter strokes of the modelled raster trajectory are, in '
+        'image order, one stroke per maximal run of black pixels spanning first..last pixel x at the row y; runs contain only '
+        'black pixels (C11 run theorems). Tie to /repo: image_to_path is run on every image with w*h <= 8 (quick) / 12 (thorough) '
+        'and on random images in modes 1/L/RGB; the recorded trajectory is compared point by point with the model and the '
+        'strokes of femto\'s raw trajectory and of its points matrix are compared with the specified strokes.',
+   note='Trusted: Coq kernel; PIL conversion as oracle; float32 tolerance 2.5e-7 relative on coordinates.',
+   design='5/C15'),
  'C03': dict(
    technique='Coq proof (nested induction over op trees / loop trees: parse-flatten inversion, well-formed emission under exceptions) + history-level differential with exceptions injected at every position + controller monitors on femto\'s own file',
    text='Props/C03.v: for every op tree and exception position the session file is the DVAR preamble plus the print of a '
